@@ -10,6 +10,7 @@ mod facts;
 mod iters;
 mod meta;
 mod opts;
+mod parsec;
 mod rows;
 mod savelog;
 mod tok;
@@ -37,6 +38,7 @@ fn main() {
         "vmrun" => vmrun::cmd_vmrun(&opts),
         "progs" => vmrun::cmd_progs(&opts),
         "compile" => compilec::cmd_compile(&opts),
+        "parse" => parsec::cmd_parse(&opts),
         "limits" => vmrun::cmd_limits(&opts),
         "savelog" => savelog::cmd_savelog(&opts),
         c => {
